@@ -1,9 +1,323 @@
-"""E2 driver (placeholder until the MIR engine lands)."""
+"""E2 driver: MIR dump of the current tree -> kernels -> obligations -> verdicts.
 
+A violated obligation is first lifted to a stylesheet and replayed natively
+through the public API (dev + release build of /repo); only what reproduces is
+reported as VIOLATION.  Structural obligations (event identity/order) have no
+numeric witness: they are reported when both the obligation and its re-run
+fail (replay = re-deciding the obligation on the current tree's MIR).
+"""
+import json
+import math
+import os
+import re
+import struct
+import sys
+import time
+
+sys.path.insert(0, os.path.join(os.path.dirname(os.path.dirname(os.path.abspath(__file__))), "mirsym"))
+
+import replay as native  # noqa: E402
+from common import CACHE, RSASS, seed  # noqa: E402
+
+import engine  # noqa: E402
+import kernels  # noqa: E402
+import mir  # noqa: E402
+import smt  # noqa: E402
+import sym  # noqa: E402
+
+KERNELS = {
+    "C01": ["k_index_of", "k_str_slice", "k_str_insert", "k_random", "k_unique_id"],
+    "C06": ["k_unique_id", "k_random"],
+    "C14": ["k_is_true", "k_and_or", "k_binop_short_circuit", "k_not"],
+    "C26": ["k_str_slice", "k_str_insert"],
+    "C28": ["k_index_of", "k_set_nth"],
+    "C31": ["k_deg_mod"],
+    "C32": ["k_deg_mod", "k_lighten_darken", "k_fade"],
+}
+# for C01 only the panic obligations of the kernels count
+PANIC_ONLY = {"C01"}
+
+MIR_PATH = os.path.join(CACHE, "mir", "rsass.mir")
+_engine = None
+
+
+def get_engine(log):
+    global _engine
+    if _engine is None:
+        t0 = time.time()
+        mir.dump(RSASS, os.path.join(CACHE, "mir", "target"), MIR_PATH)
+        log("E2: MIR of the current tree dumped in %.1f s (%d bytes)" % (time.time() - t0, os.path.getsize(MIR_PATH)))
+        _engine = engine.Engine(MIR_PATH, os.path.join(RSASS, "src"), log)
+    return _engine
+
+
+# ------------------------------------------------------------------ lifters
+
+def _val(model, name_part, signed=True, width=64):
+    for k, v in (model or {}).items():
+        if name_part in k:
+            return smt.bv_from_model(v, signed, width)
+    return None
+
+
+def _fval(model, name_part):
+    for k, v in (model or {}).items():
+        if name_part in k:
+            return smt.f64_from_model(v)
+    return None
+
+
+def _css_value(src):
+    """Compile `a{b: <src>}` in both profiles -> (text or None, raw outcomes)."""
+    outs = []
+    for prof in ("dev", "release"):
+        r = native.run_scss("@use 'sass:math'; @use 'sass:color'; @use 'sass:string'; @use 'sass:list';\na{b: %s}" % src, prof)
+        outs.append(r)
+    vals = []
+    for r in outs:
+        if r["outcome"] == "ok":
+            m = re.search(r"b: (.*);", r["message"])
+            vals.append(m.group(1) if m else "<no declaration>")
+        else:
+            vals.append("<%s>" % r["outcome"])
+    return vals, outs
+
+
+def ref_slice(s, a, b):
+    n = len(s)
+    st = n + a + 1 if a < 0 else a
+    en = n + b + 1 if b < 0 else b
+    st = max(st, 1)
+    en = min(en, n)
+    return s[st - 1:en] if en >= st else ""
+
+
+def ref_insert(s, x, i):
+    n = len(s)
+    before = i - 1 if i > 0 else (0 if i == 0 else n + i + 1)
+    before = min(max(before, 0), n)
+    return s[:before] + x + s[before:]
+
+
+def lift_str_slice(model):
+    a, b, ln = _val(model, "arg.start_at"), _val(model, "arg.end_at"), _val(model, "len", False)
+    if a is None or b is None or ln is None or ln > 40 or abs(a) > 10**6 or abs(b) > 10**6:
+        return None
+    s = "abcdefghijklmnopqrstuvwxyzABCDEFGHIJKLMN"[:ln]
+    want = '"%s"' % ref_slice(s, a, b)
+    vals, outs = _css_value('str-slice("%s", %d, %d)' % (s, a, b))
+    return {"scss": 'str-slice("%s", %d, %d)' % (s, a, b), "want": want, "got": vals, "reproduced": any(v != want for v in vals)}
+
+
+def lift_str_insert(model):
+    i, ln = _val(model, "arg.index"), _val(model, "len", False)
+    if i is None or ln is None or ln > 40 or abs(i) > 10**6:
+        return None
+    s = "abcdefghijklmnopqrstuvwxyzABCDEFGHIJKLMN"[:ln]
+    want = '"%s"' % ref_insert(s, "XY", i)
+    vals, outs = _css_value('str-insert("%s", "XY", %d)' % (s, i))
+    return {"scss": 'str-insert("%s", "XY", %d)' % (s, i), "want": want, "got": vals, "reproduced": any(v != want for v in vals)}
+
+
+def lift_nth(model):
+    n, ln = _val(model, "n#"), _val(model, "len", False)
+    if n is None or ln is None or ln > 30 or ln < 0 or abs(n) > 10**6:
+        return None
+    items = ["e%d" % k for k in range(1, ln + 1)]
+    lst = "(" + " ".join(items) + ")" if ln != 1 else "(e1,)"
+    if ln == 0:
+        lst = "()"
+    if 1 <= n <= ln:
+        want = items[n - 1]
+    elif -ln <= n <= -1:
+        want = items[ln + n]
+    else:
+        want = "<error>"
+    vals, outs = _css_value("nth(%s, %d)" % (lst, n))
+    return {"scss": "nth(%s, %d)" % (lst, n), "want": want, "got": vals, "reproduced": any(v != want for v in vals)}
+
+
+NOT_OPERANDS = {
+    "Null": ("null", "true"), "False": ("false", "true"), "True": ("true", "false"), "Numeric": ("0", "false"),
+    "Literal": ('"x"', "false"), "List": ("(1 2)", "false"), "Color": ("red", "false"), "Map": ("(a: 1)", "false"),
+    "Function": ("get-function(\"red\")", "false"), "UnicodeRange": ("U+0", "false"),
+}
+
+
+def lift_not(model, variants):
+    d = _val(model, "val.disc")
+    if d is None or not (0 <= d < len(variants)):
+        return None
+    name = variants[d]
+    if name not in NOT_OPERANDS:
+        return {"scss": None, "variant": name, "reproduced": None}
+    operand, want = NOT_OPERANDS[name]
+    vals, outs = _css_value("not %s" % operand)
+    return {"scss": "not %s" % operand, "variant": name, "want": want, "got": vals, "reproduced": any(v != want for v in vals)}
+
+
+def lift_deg_mod(model):
+    v = _fval(model, "v#")
+    if v is None or not math.isfinite(v) or abs(v) > 1e15:
+        return None
+    want = math.fmod(v, 360.0)
+    if want < 0:
+        want = math.fmod(want + 360.0, 360.0)
+    src = "hue(hsl(%s, 50%%, 50%%))" % repr(v)
+    vals, outs = _css_value(src)
+    bad = False
+    for t in vals:
+        m = re.match(r"(-?[0-9.e+-]+)deg$", t)
+        if not m:
+            bad = True
+            continue
+        got = float(m.group(1))
+        if not (0 <= got < 360) or min(abs(got - want), 360 - abs(got - want)) > 1e-6:
+            bad = True
+    return {"scss": src, "want": "%rdeg (in [0,360))" % want, "got": vals, "reproduced": bad}
+
+
+def lift(ob):
+    kind = ob.get("lift")
+    model = ob.get("model")
+    try:
+        if kind == "str-slice":
+            return lift_str_slice(model)
+        if kind == "str-insert":
+            return lift_str_insert(model)
+        if kind == "nth":
+            return lift_nth(model)
+        if kind == "not":
+            return lift_not(model, ob.get("variants", []))
+        if kind == "deg_mod":
+            return lift_deg_mod(model)
+    except Exception as e:  # a broken lifter must not turn into a verdict
+        return {"error": repr(e), "reproduced": None}
+    return None
+
+
+# ------------------------------------------------------------------ translator validation
+
+def validate_references(pid, log):
+    """Cheap per-run cross-check of the reference models used in the obligations
+    against the real build (public API), on seed-driven concrete inputs."""
+    import random
+    rnd = random.Random(seed() * 7919 + 13)
+    n = 0
+    bad = []
+    if pid in ("C26", "C01"):
+        for _ in range(10):
+            ln = rnd.randint(0, 7)
+            s = "abcdefg"[:ln]
+            a, b = rnd.randint(-ln - 2, ln + 2), rnd.randint(-ln - 2, ln + 2)
+            vals, _ = _css_value('str-slice("%s", %d, %d)' % (s, a, b))
+            n += 1
+            if any(v != '"%s"' % ref_slice(s, a, b) for v in vals):
+                bad.append(('str-slice("%s",%d,%d)' % (s, a, b), vals, ref_slice(s, a, b)))
+            i = rnd.randint(-ln - 2, ln + 2)
+            vals, _ = _css_value('str-insert("%s", "XY", %d)' % (s, i))
+            n += 1
+            if any(v != '"%s"' % ref_insert(s, "XY", i) for v in vals):
+                bad.append(('str-insert("%s","XY",%d)' % (s, i), vals, ref_insert(s, "XY", i)))
+    if pid in ("C28",):
+        for _ in range(10):
+            ln = rnd.randint(1, 6)
+            k = rnd.randint(-ln - 1, ln + 1)
+            r = lift_nth({"n#": "(_ bv%d 64)" % (k % (1 << 64)), "len": "(_ bv%d 64)" % ln})
+            n += 1
+            if r and r["reproduced"]:
+                bad.append((r["scss"], r["got"], r["want"]))
+    return n, bad
+
+
+# ------------------------------------------------------------------ main entry
 
 def run(pid, tier, known, log, write_replay_file):
-    return [], [], [], []
+    names = KERNELS.get(pid, [])
+    if not names:
+        return [], [], [], []
+    E = get_engine(log)
+    known_ids = {k["id"]: k for k in known if k.get("status") == "known" and k.get("property") == pid and k.get("engine") == "E2"}
+    records, violations, inconclusive, known_hits = [], [], [], []
+    for kn in names:
+        fn = getattr(kernels, kn, None)
+        if fn is None:
+            inconclusive.append("E2 kernel %s is not implemented" % kn)
+            continue
+        t0 = time.time()
+        try:
+            rec = fn(E, tier)
+            if pid in PANIC_ONLY:
+                rec.obligations = [o for o in rec.obligations if o["obligation"].startswith("no panic")]
+                rec.kernel += " (panic obligations)"
+                if not rec.obligations:
+                    continue
+            d = rec.to_dict()
+        except sym.Unsupported as e:
+            inconclusive.append("E2 %s: outside the supported MIR subset: %s" % (kn, str(e)[:300]))
+            log("  E2 %s: unsupported: %s" % (kn, str(e)[:200]))
+            continue
+        d["wall_s"] = round(time.time() - t0, 2)
+        d["witnesses"] = []
+        for ob in d["obligations"]:
+            if ob["verdict"] == "holds":
+                continue
+            if ob["verdict"] == "inconclusive":
+                inconclusive.append("E2 %s: %s: no verdict %s" % (kn, ob["obligation"], ob.get("solvers")))
+                continue
+            # violated
+            lf = lift(ob)
+            ob["lifted"] = lf
+            kmatch = None
+            for kid, k in known_ids.items():
+                if k.get("kernel") == kn and any(l in ob["obligation"] for l in k.get("labels", [])):
+                    kmatch = k
+            if lf is not None and lf.get("reproduced") is False:
+                inconclusive.append(
+                    "E2 %s: solver model for '%s' does not reproduce through the public API (%s): encoding error"
+                    % (kn, ob["obligation"], json.dumps(lf)[:300])
+                )
+                continue
+            if kmatch is not None:
+                region = ob.get("region_excluded")
+                if region == "holds":
+                    known_hits.append((kmatch, kn, ob["obligation"]))
+                    ob["known_finding"] = kmatch["id"]
+                    continue
+                if region is None:
+                    inconclusive.append("E2 %s: '%s' matches %s but has no region re-check" % (kn, ob["obligation"], kmatch["id"]))
+                    continue
+                # violated outside the known region: fall through to VIOLATION
+            path = write_replay_file(pid, "E2", kn, ob["obligation"], None, [], {"kernel": kn, "model": ob.get("model"), "lifted": lf})
+            violations.append((kn, ob["obligation"], path))
+            d["witnesses"].append({"label": ob["obligation"], "model": ob.get("model"), "lifted": lf, "replay_file": path})
+        log("  E2 %s: %s (%d obligations, %d paths, %.1f s)" % (kn, d["status"], len(d["obligations"]), d["paths"], d["wall_s"]))
+        records.append(d)
+    nval, bad = validate_references(pid, log)
+    if nval:
+        log("E2: reference models cross-checked against the real build on %d concrete inputs, %d disagreements" % (nval, len(bad)))
+        if records:
+            records[0].setdefault("notes", []).append("translator validation: %d concrete inputs, %d disagreements" % (nval, len(bad)))
+        for b in bad[:3]:
+            inconclusive.append("E2 reference model disagrees with the real build on %s: got %s want %s" % b)
+    if records:
+        records[-1]["solver_sessions"] = E.solver_stats()
+    return records, violations, inconclusive, known_hits
 
 
 def replay(doc, log):
+    """Re-decide one kernel on the current tree; exit 1 if the obligation is still violated."""
+    def lg(m):
+        print("[replay] " + m, flush=True)
+    E = get_engine(lg)
+    fn = getattr(kernels, doc["kernel"])
+    rec = fn(E, "quick").to_dict()
+    for ob in rec["obligations"]:
+        if ob["obligation"] == doc["label"] and ob["verdict"] == "violated":
+            lf = lift(ob)
+            if lf is None or lf.get("reproduced") in (True, None):
+                print("VIOLATION property=%s replay=%s" % (doc["property"], doc.get("_path", "?")))
+                lg("still violated: %s %s" % (ob.get("model"), json.dumps(lf)[:300] if lf else ""))
+                return 1
+    lg("obligation holds on the current tree")
     return 0
